@@ -208,7 +208,22 @@ PickWhen(whens, j, subj, env) ==
 DirOf(p) ==
   LET idx == {i \in 1..Len(p) : p[i] = 47} IN
     IF idx = {} THEN <<>> ELSE SubSeq(p, 1, (CHOOSE i \in idx : \A j \in idx : j <= i) - 1)
-JoinPath(dir, rel) == IF dir = <<>> THEN rel ELSE dir \o <<47>> \o rel
+\* path segments, and a path with its "x/.." pairs and "." segments folded away (as filepath.Join cleans it)
+RECURSIVE Segs(_)
+Segs(p) == LET idx == {i \in 1..Len(p) : p[i] = 47} IN
+             IF idx = {} THEN <<p>>
+             ELSE LET i == CHOOSE i \in idx : \A j \in idx : i <= j IN <<SubSeq(p, 1, i - 1)>> \o Segs(SubSeq(p, i + 1, Len(p)))
+RECURSIVE Fold(_, _)
+Fold(segs, acc) ==
+  IF segs = <<>> THEN acc
+  ELSE LET sg == Head(segs) IN
+    IF sg = <<46>> \/ sg = <<>> THEN Fold(Tail(segs), acc)
+    ELSE IF sg = <<46, 46>> /\ acc # <<>> /\ acc[Len(acc)] # <<46, 46>> THEN Fold(Tail(segs), SubSeq(acc, 1, Len(acc) - 1))
+    ELSE Fold(Tail(segs), Append(acc, sg))
+RECURSIVE Unsegs(_)
+Unsegs(ss) == IF ss = <<>> THEN <<>> ELSE IF Len(ss) = 1 THEN ss[1] ELSE ss[1] \o <<47>> \o Unsegs(Tail(ss))
+CleanPath(p) == Unsegs(Fold(Segs(p), <<>>))
+JoinPath(dir, rel) == IF dir = <<>> THEN CleanPath(rel) ELSE CleanPath(dir \o <<47>> \o rel)
 FileIn(files, p) == \E i \in 1..Len(files) : files[i][1] = p
 FileEntry(files, p) == files[CHOOSE i \in 1..Len(files) : files[i][1] = p]
 \* an entry <<path, nodes>> is a parseable file; <<path, nodes, "bad">> one that does not parse
